@@ -8,6 +8,7 @@ import (
 	"reflect"
 	"sort"
 	"strings"
+	"time"
 
 	"verif/engine/dfs"
 	"verif/engine/evid"
@@ -634,12 +635,30 @@ func Run(c *evid.Ctx) {
 	coll.KeyGen = coll.KeysNZ
 	c.Assume("linearizability pass: code between two synchronisation operations runs atomically (sound for data-race-free code); the race clause is decided by the race pass: every schedule of every pair of point operations (preemption bound 2) in a -race build whose detector sees only the happens-before edges of the library's own synchronisation")
 	c.Assume("the specification of a scenario is the real type run sequentially in every order of whole operations; sequential correctness itself is C09/C11/C12")
-	tasks := buildTasks(c.Thorough())
+	// The thorough tier iterates the bounds: the quick tier's task list first (complete), then the
+	// larger one (unbounded preemptions for 2x2, three preemptions for 3x1, no sampling of mutators)
+	// under a wall-clock budget per worker; what the budget cuts off is reported as non-exhaustive.
+	tasks := buildTasks(false)
+	nQuick := len(tasks)
+	if c.Thorough() {
+		tasks = append(tasks, buildTasks(true)...)
+	}
 	if w := shard.Worker(); w != nil {
 		outcomes := 0
+		var deadline time.Time
+		if c.Thorough() {
+			deadline = time.Now().Add(30 * time.Minute)
+		}
 		for i, t := range tasks {
 			if i%w.N != w.I {
 				continue
+			}
+			if i >= nQuick && !deadline.IsZero() {
+				if time.Now().After(deadline) {
+					c.NotExhaustive(fmt.Sprintf("thorough tier: worker %d stopped at its time budget with %d of %d tasks of the larger bound left (the quick tier's tasks are complete)", w.I, (len(tasks)-i)/w.N, (len(tasks)-nQuick)/w.N))
+					break
+				}
+				t.cfg.Deadline = deadline
 			}
 			switch t.kind {
 			case "dl":
@@ -655,6 +674,9 @@ func Run(c *evid.Ctx) {
 				if t.sc.seqBlocked {
 					c.Count("scenarios_skipped_sequentially_blocking", 1)
 					continue
+				}
+				if st.Capped {
+					c.NotExhaustive("time budget hit inside " + t.sc.String())
 				}
 				c.Count("scenarios", 1)
 				c.Count("states", int64(st.Executions))
